@@ -24,10 +24,25 @@ def read_tg(I, tg):
     return {"names": names, "tiers": tiers, "min": I.getattr(tg, "minTimestamp"), "max": I.getattr(tg, "maxTimestamp")}
 
 
-def lifted_table(rep, rule, method, shape, extra, modes, tg_call, tier_call, what, shared_span=None, check_valid=None, own_spans=False, tg_span=None):
+def _extreme(I, vals, want_max):
+    """min / max of symbolic numbers, decided in the abstract state (refined on demand through NeedSplit)."""
+    best = I.num(vals[0])
+    for v in vals[1:]:
+        v = I.num(v)
+        s = I.sign(v, best)
+        if (s > 0) if want_max else (s < 0):
+            best = v
+    return best
+
+
+def lifted_table(rep, rule, method, shape, extra, modes, tg_call, tier_call, what, shared_span=None, check_valid=None, own_spans=False, tg_span=None, hull_span=None, check_prints=False):
     """shape: list of (kind, name, k).  tg_call(I, tg, sy, mode) ; tier_call(I, tier, sy, mode).
     own_spans: the tiers are built without explicit bounds, so each spans only its own entries, strictly inside
-    the textgrid's [m, M] in general; tg_span(I, sy, mode, m, M) -> the span the resulting textgrid must have."""
+    the textgrid's [m, M] in general; tg_span(I, sy, mode, m, M) -> the span the resulting textgrid must have;
+    hull_span(I, sy, mode) -> (lo, hi) or None: the resulting textgrid's span must be the smallest one containing
+    [lo, hi] and the span of every tier-level result ("widened just enough");
+    check_prints: the textgrid operation reports (prints) something iff one of the tier-level operations does --
+    the reporting mode reaches the tiers and the textgrid's own span bookkeeping alike."""
     idx = common.ctx()
     fn = idx.get("Textgrid." + method)
     rep.functions.add(fn.qual)
@@ -55,9 +70,12 @@ def lifted_table(rep, rule, method, shape, extra, modes, tg_call, tier_call, wha
                 # expected: the tier-level operation on each tier (interpreted separately)
                 expected = []
                 exp_raise = None
+                tier_prints = 0
                 for t in objs:
                     try:
+                        I.prints = 0
                         expected.append(read_tier(I, tier_call(I, t, sy, mode)))
+                        tier_prints += I.prints
                     except PyRaise as e:
                         exp_raise = e.name
                         break
@@ -66,10 +84,16 @@ def lifted_table(rep, rule, method, shape, extra, modes, tg_call, tier_call, wha
                     res = tg_call(I, tg, sy, mode)
                 except PyRaise as e:
                     return {"raise": e.name, "exp_raise": exp_raise}
+                printed = I.prints > 0
                 got = read_tg(I, res)
+                got["printed"] = (printed, tier_prints > 0)
                 got["exp_raise"] = exp_raise
                 got["expected"] = expected
                 got["same_object"] = res is tg
+                base = hull_span(I, sy, mode) if hull_span else None
+                if base is not None:
+                    got["hull"] = (_extreme(I, [base[0]] + [t["min"] for t in expected], False),
+                                   _extreme(I, [base[1]] + [t["max"] for t in expected], True))
                 if check_valid and check_valid(mode):
                     I.prints = 0
                     got["valid"] = I.truth(I.call_value(I.getattr(res, "validate"), ["silence"], {}))
@@ -120,6 +144,12 @@ def lifted_table(rep, rule, method, shape, extra, modes, tg_call, tier_call, wha
                 lo, hi = want_span if want_span else (v["min"], v["max"])
                 if not (num_equal(I, v["min"], lo) and num_equal(I, v["max"], hi)):
                     diff = "textgrid span is (%r, %r), expected (%r, %r)" % (v["min"], v["max"], lo, hi)
+            if diff is None and check_prints and v["printed"][0] != v["printed"][1]:
+                diff = "textgrid operation %s, the tier-level operations %s" % ("reports (prints) something" if v["printed"][0] else "reports nothing", "report nothing" if v["printed"][0] else "report a change")
+            if diff is None and "hull" in v:
+                lo, hi = v["hull"]
+                if not (num_equal(I, v["min"], lo) and num_equal(I, v["max"], hi)):
+                    diff = "textgrid span is (%r, %r), expected the hull of the window and the tiers' spans (%r, %r)" % (v["min"], v["max"], lo, hi)
             if diff is None and "valid" in v and not v["valid"]:
                 diff = "validate() of the result is False"
             out.append((mode, diff is None, diff or "", None))
